@@ -116,7 +116,7 @@ theorem checkAddress_ok (P : Prims) (d : Bytes) (r r' : Bytes × Bool) (h : chec
         · rename_i hg
           injection h with h
           have heq : derived = addressHash := by simpa [bip38_Decrypt_4] using hg
-          exact ⟨h.symm, addr, rfl, by rw [heq], addressHash, rfl⟩
+          exact ⟨h.symm, addr, rfl, by rw [h2, heq], addressHash, rfl⟩
 
 /-- a successful `Decrypt`: the payload is well formed, its flag byte is canonical, the returned
     compression flag is the flag bit, and the address hash of the recovered key is the one embedded
@@ -154,24 +154,8 @@ theorem decrypt_ok (P : Prims) (s pw k : Bytes) (c : Bool) (h : decrypt P s pw =
               exact UInt8.toNat_inj.mp (by simpa using this)
             subst hb0'
             by_cases hec : bip38_Decrypt_2 (decodedEncryptedKey_1 := b1.toNat) = true
-          · rw [if_pos hec] at h
-            cases hin : decryptEC P d pw with
-            | err => rw [hin] at h; cases h
-            | panic => rw [hin] at h; cases h
-            | ok r =>
-              rw [hin] at h
-              simp only at h
-              obtain ⟨hr, addr, hda, hslice, _⟩ := checkAddress_ok P d r (k, c) h
-              subst hr
-              obtain ⟨flag, hf, hflag, hc⟩ := decryptEC_ok P d pw k c hin
-              have hb1 : b1 = 0x43 := by
-                have : b1.toNat = 67 := by simpa [bip38_Decrypt_2] using hec
-                exact UInt8.toNat_inj.mp (by simpa using this)
-              exact ⟨d, flag, rfl, hl, rfl, hf, Or.inr ⟨by rw [hb1], hflag⟩, hc, addr, hda, hslice⟩
-          · rw [if_neg hec] at h
-            by_cases hpl : bip38_Decrypt_3 (decodedEncryptedKey_1 := b1.toNat) = true
-            · rw [if_pos hpl] at h
-              cases hin : decryptPlain P d pw with
+            · rw [if_pos hec] at h
+              cases hin : decryptEC P d pw with
               | err => rw [hin] at h; cases h
               | panic => rw [hin] at h; cases h
               | ok r =>
@@ -179,13 +163,29 @@ theorem decrypt_ok (P : Prims) (s pw k : Bytes) (c : Bool) (h : decrypt P s pw =
                 simp only at h
                 obtain ⟨hr, addr, hda, hslice, _⟩ := checkAddress_ok P d r (k, c) h
                 subst hr
-                obtain ⟨flag, hf, hflag, hc, _⟩ := decryptPlain_ok P d pw k c hin
-                have hb1 : b1 = 0x42 := by
-                  have : b1.toNat = 66 := by simpa [bip38_Decrypt_3] using hpl
+                obtain ⟨flag, hf, hflag, hc⟩ := decryptEC_ok P d pw k c hin
+                have hb1 : b1 = 0x43 := by
+                  have : b1.toNat = 67 := by simpa [bip38_Decrypt_2] using hec
                   exact UInt8.toNat_inj.mp (by simpa using this)
-                exact ⟨d, flag, rfl, hl, rfl, hf, Or.inl ⟨by rw [hb1], hflag⟩, hc, addr, hda, hslice⟩
-            · rw [if_neg hpl] at h
-              cases h
+                exact ⟨d, flag, rfl, hl, h0, hf, Or.inr ⟨by rw [h1, hb1], hflag⟩, hc, addr, hda, hslice⟩
+            · rw [if_neg hec] at h
+              by_cases hpl : bip38_Decrypt_3 (decodedEncryptedKey_1 := b1.toNat) = true
+              · rw [if_pos hpl] at h
+                cases hin : decryptPlain P d pw with
+                | err => rw [hin] at h; cases h
+                | panic => rw [hin] at h; cases h
+                | ok r =>
+                  rw [hin] at h
+                  simp only at h
+                  obtain ⟨hr, addr, hda, hslice, _⟩ := checkAddress_ok P d r (k, c) h
+                  subst hr
+                  obtain ⟨flag, hf, hflag, hc, _⟩ := decryptPlain_ok P d pw k c hin
+                  have hb1 : b1 = 0x42 := by
+                    have : b1.toNat = 66 := by simpa [bip38_Decrypt_3] using hpl
+                    exact UInt8.toNat_inj.mp (by simpa using this)
+                  exact ⟨d, flag, rfl, hl, h0, hf, Or.inl ⟨by rw [h1, hb1], hflag⟩, hc, addr, hda, hslice⟩
+              · rw [if_neg hpl] at h
+                cases h
 
 /-! ### the non-EC-multiplied round trip -/
 
@@ -297,5 +297,225 @@ theorem decrypt_encrypt (P : Prims) (g : Good P) (key pw : Bytes) (c : Bool) (hk
   unfold checkAddress
   rw [hda]
   simp only [l37, s_salt, bip38_Decrypt_4, BEq.rfl, Bool.not_true, Bool.false_eq_true, if_false]
+
+/-! ### the EC-multiplied round trip -/
+
+theorem flag_ec (c lot : Bool) :
+    (encodeFlagByte c true lot).toNat &&& 219 = 0 ∧
+    decide ((encodeFlagByte c true lot).toNat &&& 32 ≠ 0) = c ∧
+    decide ((encodeFlagByte c true lot).toNat &&& 4 ≠ 0) = lot := by
+  cases c <;> cases lot <;> decide
+
+/-- the six fields of a 39-byte EC-multiplied payload -/
+theorem layout39ec (f : UInt8) (ah oe h1 e2 : Bytes) (hah : ah.length = 4) (hoe : oe.length = 8)
+    (hh1 : h1.length = 8) (he2 : e2.length = 16) :
+    let d := [0x01, 0x43] ++ [f] ++ ah ++ oe ++ h1 ++ e2
+    d.length = 39 ∧ d[0]? = some 1 ∧ d[1]? = some 0x43 ∧ d[2]? = some f ∧
+      slice d 3 7 = .ok ah ∧ slice d 7 15 = .ok oe ∧ slice d 15 23 = .ok h1 ∧
+      slice d 23 d.length = .ok e2 := by
+  intro d
+  have hl : d.length = 39 := by simp [d, hah, hoe, hh1, he2]
+  refine ⟨hl, rfl, rfl, rfl, ?_, ?_, ?_, ?_⟩
+  · rw [slice_ok d 3 7 (by decide) (by omega)]
+    have e : d = [0x01, 0x43, f] ++ (ah ++ (oe ++ h1 ++ e2)) := by simp [d]
+    rw [e, show (7 : Nat) = 3 + 4 from rfl, List.take_add, List.take_left' (by rfl),
+      List.drop_left' (by rfl), List.drop_left' (by rfl), List.take_left' hah]
+  · rw [slice_ok d 7 15 (by decide) (by omega)]
+    have e : d = ([0x01, 0x43, f] ++ ah) ++ (oe ++ (h1 ++ e2)) := by simp [d]
+    have h7 : ([0x01, 0x43, f] ++ ah).length = 7 := by simp [hah]
+    rw [e, show (15 : Nat) = 7 + 8 from rfl, List.take_add, List.take_left' h7,
+      List.drop_left' h7, List.drop_left' h7, List.take_left' hoe]
+  · rw [slice_ok d 15 23 (by decide) (by omega)]
+    have e : d = ([0x01, 0x43, f] ++ ah ++ oe) ++ (h1 ++ e2) := by simp [d]
+    have h15 : ([0x01, 0x43, f] ++ ah ++ oe).length = 15 := by simp [hah, hoe]
+    rw [e, show (23 : Nat) = 15 + 8 from rfl, List.take_add, List.take_left' h15,
+      List.drop_left' h15, List.drop_left' h15, List.take_left' hh1]
+  · rw [slice_suffix d 23 (by omega)]
+    have e : d = ([0x01, 0x43, f] ++ ah ++ oe ++ h1) ++ e2 := by simp [d]
+    rw [e, List.drop_left' (by simp [hah, hoe, hh1])]
+
+theorem magic_facts : magicLot.length = 8 ∧ magicPlain.length = 8 ∧ magicLot ≠ magicPlain := by decide
+
+/-- Encrypting with an intermediate code and decrypting with the passphrase the code was made
+    from returns the key `factorb · passfactor mod N` — provided the two ways of computing the
+    public key agree (`hcomm`: the group law `(fb·pf)·G = fb·(pf·G)`, owned by C06). -/
+theorem ec_roundtrip (P : Prims) (g : Good P) (useLot : Bool) (oe pw pf pp seedb : Bytes) (c : Bool)
+    (hoe : oe.length = 8) (hpf : passFactorOf P useLot pw oe = .ok pf) (hpp : P.baseMul pf = .ok pp)
+    (hppl : pp.length = 33) (hsl : seedb.length = 24) (pub addr : Bytes)
+    (hpub : P.pointMul pp (P.dsha256 seedb) c = .ok pub) (haddr : P.p2pkh pub = .ok addr)
+    (hcomm : P.pubKey (P.mulModN (P.dsha256 seedb) pf) c = .ok pub) :
+    ∃ s, encryptIntermediateCode P seedb
+        (Base58Check.encode P.cksum ((if useLot then magicLot else magicPlain) ++ oe ++ pp)) c = .ok s ∧
+      decrypt P s pw = .ok (P.mulModN (P.dsha256 seedb) pf, c) := by
+  obtain ⟨hml, hmp, hmne⟩ := magic_facts
+  generalize hmagic : (if useLot then magicLot else magicPlain) = magic
+  have hmagl : magic.length = 8 := by rw [← hmagic]; split <;> assumption
+  -- the intermediate code payload and its fields
+  generalize hic : magic ++ oe ++ pp = ic
+  have hicl : ic.length = 49 := by rw [← hic]; simp [hmagl, hoe, hppl]
+  have i_magic : slice ic 0 8 = .ok magic := by
+    rw [slice_prefix ic 8 (by omega), ← hic, List.append_assoc, List.take_left' hmagl]
+  have i_oe : slice ic 8 16 = .ok oe := by
+    rw [slice_ok ic 8 16 (by decide) (by omega), ← hic, List.append_assoc,
+      show (16 : Nat) = 8 + 8 from rfl, List.take_add, List.take_left' hmagl, List.drop_left' hmagl,
+      List.drop_left' hmagl, List.take_left' hoe]
+  have i_pp : slice ic 16 ic.length = .ok pp := by
+    rw [slice_suffix ic 16 (by omega), ← hic, List.drop_left' (by simp [hmagl, hoe])]
+  have huse : (if bip38_EncryptIntermediateCode_1
+        (call_bytes_Equal_intermediateCode_8_intermediateCodeMagicBytesLotSequence := (magic == magicLot)) then
+        (Outcome.ok true : Outcome Bool)
+      else if bip38_EncryptIntermediateCode_2
+        (call_bytes_Equal_intermediateCode_8_intermediateCodeMagicBytes := (magic == magicPlain)) then .ok false
+      else .err) = .ok useLot := by
+    rw [← hmagic]
+    cases useLot
+    · have : (magicPlain == magicLot) = false := by simpa using fun h => hmne h.symm
+      simp [bip38_EncryptIntermediateCode_1, bip38_EncryptIntermediateCode_2, this]
+    · simp [bip38_EncryptIntermediateCode_1]
+  -- the values computed by the encryption
+  generalize hfb : P.dsha256 seedb = fb at *
+  generalize hah : (P.dsha256 addr).take 4 = ah
+  have hahl : ah.length = 4 := by rw [← hah]; simp [g.dsha_len]
+  have s_ah : slice (P.dsha256 addr) 0 4 = .ok ah := by
+    rw [slice_prefix _ 4 (by rw [g.dsha_len]; decide), hah]
+  generalize hkey : P.scrypt pp (ah ++ oe) 1024 1 1 64 = sk
+  have hskl : sk.length = 64 := by rw [← hkey]; exact g.scrypt_len _ _ _ _ _ _
+  have s_dk1 : slice sk 0 32 = .ok (sk.take 32) := slice_prefix _ _ (by omega)
+  have s_dk2 : slice sk 32 sk.length = .ok (sk.drop 32) := slice_suffix _ _ (by omega)
+  generalize hdk1 : sk.take 32 = dk1 at *
+  generalize hdk2 : sk.drop 32 = dk2 at *
+  have hdk1l : dk1.length = 32 := by rw [← hdk1]; simp; omega
+  have s_s016 : slice seedb 0 16 = .ok (seedb.take 16) := slice_prefix _ _ (by omega)
+  have s_s16 : slice seedb 16 seedb.length = .ok (seedb.drop 16) := slice_suffix _ _ (by omega)
+  have s_k016 : slice dk1 0 16 = .ok (dk1.take 16) := slice_prefix _ _ (by omega)
+  have s_k16 : slice dk1 16 dk1.length = .ok (dk1.drop 16) := slice_suffix _ _ (by omega)
+  have s_k1624 : slice dk1 16 24 = .ok ((dk1.drop 16).take 8) := by
+    rw [slice_ok dk1 16 24 (by decide) (by omega), show (24 : Nat) = 16 + 8 from rfl, List.take_add,
+      List.drop_left' (by simp; omega)]
+  have s_k24 : slice dk1 24 dk1.length = .ok ((dk1.drop 16).drop 8) := by
+    rw [slice_suffix dk1 24 (by omega), List.drop_drop]
+  generalize hka : dk1.take 16 = ka at *
+  generalize hkb : dk1.drop 16 = kb at *
+  have hkal : ka.length = 16 := by rw [← hka]; simp; omega
+  have hkbl : kb.length = 16 := by rw [← hkb]; simp; omega
+  have hs1l : (seedb.take 16).length = 16 := by simp; omega
+  have hs2l : (seedb.drop 16).length = 8 := by simp; omega
+  have x1 := xorBytes_ok (seedb.take 16) ka (by omega)
+  generalize he1 : P.aesEnc dk2 (List.zipWith (· ^^^ ·) (seedb.take 16) ka) = e1 at *
+  have he1l : e1.length = 16 := by rw [← he1]; exact g.aes_len _ _ (by simp; omega)
+  have s_e1t : slice e1 8 e1.length = .ok (e1.drop 8) := slice_suffix _ _ (by omega)
+  have s_e1h : slice e1 0 8 = .ok (e1.take 8) := slice_prefix _ _ (by omega)
+  have hv : (e1.drop 8 ++ seedb.drop 16).length = 16 := by simp; omega
+  have x2 := xorBytes_ok (e1.drop 8 ++ seedb.drop 16) kb (by omega)
+  generalize he2 : P.aesEnc dk2 (List.zipWith (· ^^^ ·) (e1.drop 8 ++ seedb.drop 16) kb) = e2 at *
+  have he2l : e2.length = 16 := by rw [← he2]; exact g.aes_len _ _ (by simp; omega)
+  have henc : encryptIntermediateCode P seedb (Base58Check.encode P.cksum ic) c =
+      .ok (Base58Check.encode P.cksum
+        ([0x01, 0x43] ++ [encodeFlagByte c true useLot] ++ ah ++ oe ++ e1.take 8 ++ e2)) := by
+    unfold encryptIntermediateCode
+    rw [Proofs.Base58.Check.decode_encode P.cksum g.ck_len ic]
+    have hg : bip38_EncryptIntermediateCode_0 (len_intermediateCode := ic.length) = false := by
+      simp [bip38_EncryptIntermediateCode_0, hicl]
+    have hrl : ¬ seedb.length < 24 := by omega
+    have htk : seedb.take 24 = seedb := List.take_of_length_le (by omega)
+    simp only [hg, Bool.false_eq_true, if_false, i_magic, Outcome.bind_ok, huse, i_oe, i_pp, hrl, htk, hfb,
+      hpub, haddr, s_ah, hkey, s_dk1, s_dk2, s_s016, s_s16, s_k016, s_k16, x1, he1, s_e1t, s_e1h, x2, he2,
+      Outcome.pure_eq, prefixBytes, bip38_prefixBytes_0]
+    simp
+  refine ⟨_, henc, ?_⟩
+  -- decryption
+  obtain ⟨hl, h0, h1, h2, l37, l715, l1523, l23⟩ :=
+    layout39ec (encodeFlagByte c true useLot) ah oe (e1.take 8) e2 hahl hoe (by simp; omega) he2l
+  generalize hd : [0x01, 0x43] ++ [encodeFlagByte c true useLot] ++ ah ++ oe ++ e1.take 8 ++ e2 = d at *
+  unfold decrypt
+  rw [Proofs.Base58.Check.decode_encode P.cksum g.ck_len d]
+  have hg0 : bip38_Decrypt_0 (len_decodedEncryptedKey := d.length) = false := by simp [bip38_Decrypt_0, hl]
+  simp only [hg0, Bool.false_eq_true, if_false, h0, h1]
+  have hg1 : bip38_Decrypt_1 (decodedEncryptedKey_0 := (1 : UInt8).toNat) = false := by decide
+  have hg2 : bip38_Decrypt_2 (decodedEncryptedKey_1 := (0x43 : UInt8).toNat) = true := by decide
+  simp only [hg1, hg2, Bool.false_eq_true, if_false, if_true]
+  obtain ⟨hf1, hf2, hf3⟩ := flag_ec c useLot
+  -- the second half decrypts to (tail of the first ciphertext block ‖ tail of seedb) xor kb
+  have hkbsplit : kb = kb.take 8 ++ kb.drop 8 := (List.take_append_drop 8 kb).symm
+  have hzip : List.zipWith (· ^^^ ·) (e1.drop 8 ++ seedb.drop 16) kb =
+      List.zipWith (· ^^^ ·) (e1.drop 8) (kb.take 8) ++ List.zipWith (· ^^^ ·) (seedb.drop 16) (kb.drop 8) := by
+    conv => lhs; rw [hkbsplit]
+    exact List.zipWith_append (by simp; omega)
+  have hz1l : (List.zipWith (· ^^^ ·) (e1.drop 8) (kb.take 8)).length = 8 := by simp; omega
+  have hkey' : ecKey P d pw useLot = .ok (P.mulModN fb pf) := by
+    unfold ecKey
+    have d2 : P.aesDec dk2 e2 = List.zipWith (· ^^^ ·) (e1.drop 8) (kb.take 8) ++
+        List.zipWith (· ^^^ ·) (seedb.drop 16) (kb.drop 8) := by
+      rw [← he2, g.aes_inv, hzip]
+    have s_a : slice (P.aesDec dk2 e2) 0 8 = .ok (List.zipWith (· ^^^ ·) (e1.drop 8) (kb.take 8)) := by
+      rw [d2, slice_prefix _ 8 (by simp; omega), List.take_left' hz1l]
+    have s_b : slice (P.aesDec dk2 e2) 8 (P.aesDec dk2 e2).length =
+        .ok (List.zipWith (· ^^^ ·) (seedb.drop 16) (kb.drop 8)) := by
+      rw [d2, slice_suffix _ 8 (by simp; omega), List.drop_left' hz1l]
+    have y1 : xorBytes (List.zipWith (· ^^^ ·) (e1.drop 8) (kb.take 8)) (kb.take 8) = .ok (e1.drop 8) := by
+      rw [xorBytes_ok _ _ (by simp; omega), xor_cancel _ _ (by simp; omega)]
+    have y2 : xorBytes (List.zipWith (· ^^^ ·) (seedb.drop 16) (kb.drop 8)) (kb.drop 8) = .ok (seedb.drop 16) := by
+      rw [xorBytes_ok _ _ (by simp; omega), xor_cancel _ _ (by simp; omega)]
+    have hfull : e1.take 8 ++ (e1.drop 8).take 8 = e1 := by
+      have : (e1.drop 8).take 8 = e1.drop 8 := List.take_of_length_le (by simp; omega)
+      rw [this, List.take_append_drop]
+    have y3 : xorBytes (P.aesDec dk2 e1) ka = .ok (seedb.take 16) := by
+      rw [← he1, g.aes_inv, xorBytes_ok _ _ (by simp; omega), xor_cancel _ _ (by omega)]
+    have hseed : (seedb.take 16).take 16 ++ (seedb.drop 16).take 8 = seedb := by
+      have a : (seedb.take 16).take 16 = seedb.take 16 := List.take_of_length_le (by simp; omega)
+      have b : (seedb.drop 16).take 8 = seedb.drop 16 := List.take_of_length_le (by simp; omega)
+      rw [a, b, List.take_append_drop]
+    simp only [l37, l715, Outcome.bind_ok, hpf, hpp, hkey, s_dk1, s_dk2, l1523, l23, s_a, s_b, s_k1624, s_k24,
+      y1, y2, s_k016, hfull, y3, hseed, hfb, Outcome.pure_eq]
+  have hinner : decryptEC P d pw = .ok (P.mulModN fb pf, c) := by
+    unfold decryptEC
+    rw [h2]
+    simp only [bip38_decryptECMult_0, hf1, ne_eq, not_true_eq_false, decide_false, Bool.false_eq_true,
+      if_false, bip38_decryptECMult_asg1, hf3, hkey', Outcome.map, bip38_decryptECMult_asg0, hf2]
+  rw [hinner]
+  simp only
+  unfold checkAddress deriveAddress
+  simp only [hcomm, Outcome.bind_ok, haddr, l37, s_ah, bip38_Decrypt_4, BEq.rfl, Bool.not_true,
+    Bool.false_eq_true, if_false]
+
+/-- what `GenerateIntermediateCode` returns (reader bytes = the owner entropy) -/
+theorem intermediateCode_eq (P : Prims) (oe pw pp : Bytes) (hoe : oe.length = 8)
+    (hpp : P.baseMul (P.scrypt pw oe 16384 8 8 32) = .ok pp) :
+    intermediateCode P oe pw = .ok (Base58Check.encode P.cksum (magicPlain ++ oe ++ pp)) ∧
+    passFactorOf P false pw oe = .ok (P.scrypt pw oe 16384 8 8 32) := by
+  constructor
+  · unfold intermediateCode
+    have : ¬ oe.length < 8 := by omega
+    have ht : oe.take 8 = oe := List.take_of_length_le (by omega)
+    simp only [this, if_false, ht, hpp, Outcome.bind_ok, Outcome.pure_eq]
+  · simp [passFactorOf, bip38_decryptECMult_1]
+
+/-- what `GenerateIntermediateCodeWithLotSequence` returns (reader bytes = the owner salt) -/
+theorem intermediateCodeLot_eq (P : Prims) (salt pw pp : Bytes) (lot sequence : Nat) (hs : salt.length = 4)
+    (hlot : lot ≤ 0xfffff) (hseq : sequence ≤ 0xfff)
+    (hpp : P.baseMul (P.dsha256 (P.scrypt pw salt 16384 8 8 32 ++
+      (salt ++ beBytes 4 ((lot <<< 12 + sequence) % 4294967296)))) = .ok pp) :
+    let oe := salt ++ beBytes 4 ((lot <<< 12 + sequence) % 4294967296)
+    intermediateCodeLot P salt pw lot sequence = .ok (Base58Check.encode P.cksum (magicLot ++ oe ++ pp)) ∧
+    oe.length = 8 ∧
+    passFactorOf P true pw oe = .ok (P.dsha256 (P.scrypt pw salt 16384 8 8 32 ++ oe)) := by
+  intro oe
+  have hg0 : bip38_encodeLotSequence_0 (lot := lot) = false := by
+    simp only [bip38_encodeLotSequence_0, decide_eq_false_iff_not]; omega
+  have hg1 : bip38_encodeLotSequence_1 (sequence := sequence) = false := by
+    simp only [bip38_encodeLotSequence_1, decide_eq_false_iff_not]; omega
+  have hoel : oe.length = 8 := by simp [oe, hs]
+  refine ⟨?_, hoel, ?_⟩
+  · unfold intermediateCodeLot encodeLotSequence
+    have : ¬ salt.length < 4 := by omega
+    have ht : salt.take 4 = salt := List.take_of_length_le (by omega)
+    simp only [hg0, hg1, Bool.false_eq_true, if_false, Outcome.bind_ok, this, ht, hpp, Outcome.pure_eq]
+    rfl
+  · unfold passFactorOf
+    have hsl : slice oe 0 4 = .ok salt := by
+      rw [slice_prefix oe 4 (by omega)]
+      simp only [oe]
+      rw [List.take_left' hs]
+    simp only [bip38_decryptECMult_1, if_true, hsl, Outcome.bind_ok, Outcome.pure_eq]
 
 end BtcVerif.Proofs.Bip38
